@@ -140,6 +140,8 @@ pub struct Report {
     pub exhaustive: bool,
     pub rule: String,
     pub notes: Vec<String>,
+    /// ask the driver whether the totality theorem's hypotheses hold for each generated command (C01)
+    pub check_wf: bool,
 }
 
 pub fn fnv(s: &str) -> u64 {
